@@ -12,6 +12,7 @@ import (
 	"os"
 	"strconv"
 	"syscall"
+	"time"
 
 	"github.com/thomasjungblut/go-sstables/recordio"
 	rProto "github.com/thomasjungblut/go-sstables/recordio/proto"
@@ -44,6 +45,10 @@ func res(err error) string {
 }
 
 func main() {
+	// never outlive the harness: die with the tracer (the parent), and in any case after ten minutes - a program takes
+	// seconds, but a deadlocked database with a running ticker would otherwise spin on as an orphan
+	_, _, _ = syscall.RawSyscall(syscall.SYS_PRCTL, 1 /* PR_SET_PDEATHSIG */, uintptr(syscall.SIGKILL), 0)
+	time.AfterFunc(10*time.Minute, func() { os.Exit(9) })
 	if len(os.Args) != 4 {
 		fmt.Fprintln(os.Stderr, "usage: runner program.json dir ackfile")
 		os.Exit(2)
